@@ -197,19 +197,30 @@ func checkC15(cfg *core.Config) int {
 	var jobs []runlib.Job
 	n := cfg.Pick(16, 24)
 	for _, id := range sortedKeys(funcs) {
-		recursive := false
+		recursive := pr.pl.ByID[id].Meta["recursive"] == true
 		for f := range pr.pl.ByID[id].Features {
 			if strings.HasPrefix(f, "recursive:") {
 				recursive = true
 			}
 		}
+		opts := map[string]string{}
+		if !pr.hasGen(id, "gounions") {
+			// the union wrappers of this program are not compiled in (C01 finding):
+			// the JSON round trip is only run on types that need none
+			opts["no-wrappers"] = "1"
+			rep.Count("programs-without-union-wrappers", 1)
+		}
 		if !recursive {
-			jobs = append(jobs, runlib.Job{Prog: id, Cmd: "rand", Seed: cfg.Seed, N: n})
+			jobs = append(jobs, runlib.Job{Prog: id, Cmd: "rand", Seed: cfg.Seed, N: n, Opts: opts})
 			continue
 		}
 		for _, fn := range funcs[id] {
 			if strings.HasPrefix(fn, "rand") {
-				jobs = append(jobs, runlib.Job{Prog: id, Cmd: "rand", Seed: cfg.Seed, N: n, Opts: map[string]string{"funcs": fn}})
+				o := map[string]string{"funcs": fn}
+				for k, v := range opts {
+					o[k] = v
+				}
+				jobs = append(jobs, runlib.Job{Prog: id, Cmd: "rand", Seed: cfg.Seed, N: n, Opts: o})
 			}
 		}
 	}
